@@ -5,11 +5,16 @@ mod common;
 mod corpus;
 mod front;
 mod front_mc;
+mod layout_mc;
 mod lex_mc;
 mod linecol_mc;
+mod mangle_mc;
 mod parse_mc;
+mod prec_mc;
 mod replay;
 mod topo_mc;
+mod tyrel_mc;
+mod tyuni;
 
 fn main() {
     let argv: Vec<String> = std::env::args().collect();
@@ -22,6 +27,7 @@ fn main() {
     match argv[1].as_str() {
         "front-worker" => front::worker_main(),
         "parse-pump-child" => parse_mc::pump_child(&argv[2..]),
+        "layout-child" => layout_mc::child(&argv[2..]),
         _ => {}
     }
     rayon::ThreadPoolBuilder::new()
@@ -37,6 +43,10 @@ fn main() {
         "front-mc" => front_mc::run(&args, "C06"),
         "unsafe-mc" => front_mc::run(&args, "C07"),
         "topo-mc" => topo_mc::run(&args),
+        "mangle-mc" => mangle_mc::run(&args),
+        "tyrel-mc" => tyrel_mc::run(&args),
+        "prec-mc" => prec_mc::run(&args),
+        "layout-mc" => layout_mc::run(&args),
         "replay" => replay::run(&argv[2]),
         other => {
             eprintln!("unknown engine {other}");
